@@ -649,4 +649,120 @@ judge_zep(int zi, int rd, int sod, int binary, int replay)
 	return bad;
 }
 
+/* ---- durations on stdin, date on the command line, --from-zone (dadd's mass_add_d) ----
+ * `echo +24h | dadd --from-zone Z LOCAL -f %s' must print the instant of LOCAL in Z plus the duration;
+ * the start instant is the implementation's own single conversion (dconv --from-zone Z LOCAL -f %s) */
+static const struct {
+	int zi;
+	int y, m, d;
+} sdz[] = {
+	{5, 2012, 3, 24}, {5, 2012, 10, 27}, {5, 2012, 6, 15},		/* Europe/Berlin: before DST on, before DST off, mid-summer */
+	{1, 2012, 3, 10}, {1, 2012, 11, 3}, {0, 2012, 3, 24},		/* America/New_York likewise; Asia/Tokyo (no DST) */
+};
+#define NSDZ	6
+
+static int
+judge_stdin_durs(int k, int replay)
+{
+	zif_t z = seq_zone(sdz[k].zi);
+	static struct dt_dt_s v;
+	char text[64], startbuf[64] = "", in[512] = "", out[1024] = "", exe[512], key[200], cas[32], cmd[320];
+	int64_t start;
+	int rc, bad = 0, pin[2], pout[2], st;
+	size_t inlen = 0, tot = 0;
+	ssize_t nr;
+	pid_t pid;
+	char *line;
+	EX_CTR(c_bind, "cli_binding_replays");
+	EX_CTR(c_trans, "transitions");
+	EX_CTR(c_skipz, "skipped:zone file not available or the zone conversion of the start value does not return a date-time (C12/C19)");
+
+	snprintf(text, sizeof(text), "%04d-%02d-%02dT12:00:00", sdz[k].y, sdz[k].m, sdz[k].d);
+	if (z == NULL) {
+		++*c_skipz;
+		return 0;
+	}
+	EX_GUARD_BEGIN(rc);
+	v = dt_io_strpdt(text, NULL, 0U, z);
+	v.zdiff = 0U;
+	v.neg = 0U;
+	dt_strfdt(startbuf, sizeof(startbuf), "%s", v);
+	EX_GUARD_END;
+	if (rc || !startbuf[0]) {
+		++*c_skipz;
+		return 0;
+	}
+	start = strtoll(startbuf, NULL, 10);
+	for (int i = 0; i < NSEQA; i++) {
+		inlen += (size_t)snprintf(in + inlen, sizeof(in) - inlen, "%s\n", seq_alpha[i]);
+	}
+	snprintf(exe, sizeof(exe), "%s/src/dadd", ex.tree ? ex.tree : ".");
+	snprintf(cmd, sizeof(cmd), "printf '+24h\\n...' | dadd --from-zone %s %s -f %%s", seq_zones[sdz[k].zi], text);
+	if (pipe(pin) < 0 || pipe(pout) < 0) {
+		return 0;
+	}
+	fflush(stdout);
+	if ((pid = fork()) == 0) {
+		int nul = open("/dev/null", O_RDWR);
+		struct itimerval zt = {{0, 0}, {0, 0}};
+		setitimer(ITIMER_REAL, &zt, NULL);
+		signal(SIGALRM, SIG_DFL);
+		dup2(pin[0], 0), dup2(pout[1], 1), dup2(nul, 2);
+		close(pin[0]), close(pin[1]), close(pout[0]), close(pout[1]);
+		alarm(10);
+		execl(exe, "dadd", "--from-zone", seq_zones[sdz[k].zi], text, "-f", "%s", (char*)NULL);
+		_exit(127);
+	}
+	close(pin[0]), close(pout[1]);
+	if (write(pin[1], in, inlen) < 0) {
+		;
+	}
+	close(pin[1]);
+	while (tot + 1 < sizeof(out) && ((nr = read(pout[0], out + tot, sizeof(out) - 1 - tot)) > 0 || (nr < 0 && errno == EINTR))) {
+		if (nr > 0) {
+			tot += (size_t)nr;
+		}
+	}
+	close(pout[0]);
+	out[tot] = '\0';
+	while (waitpid(pid, &st, 0) < 0 && errno == EINTR) {
+		;
+	}
+	++*c_bind;
+	line = out;
+	for (int i = 0; i < NSEQA; i++) {
+		char *nl = strchr(line, '\n');
+		int64_t want = start + seq_secs[i];
+		long long g;
+		volatile int64_t o1 = 0, o2 = 0;
+		int rc2;
+		if (nl) {
+			*nl = '\0';
+		}
+		g = *line ? strtoll(line, NULL, 10) : -1;
+		++*c_trans;
+		ex_outcome(ex_hash(line, strlen(line)));
+		if (replay) {
+			printf("  echo %s | dadd --from-zone %s %s -f %%s -> '%s'; start %lld %+lld = %lld\n", seq_alpha[i], seq_zones[sdz[k].zi], text, line,
+			       (long long)start, (long long)seq_secs[i], (long long)want);
+		}
+		if (!*line || g != want) {
+			/* does the zone's offset change between the start and the result? */
+			EX_GUARD_BEGIN(rc2);
+			o1 = zif_local_time(z, start) - start;
+			o2 = zif_local_time(z, want) - want;
+			EX_GUARD_END;
+			snprintf(key, sizeof(key), "durations on stdin, date as argument, --from-zone: %s (zone offset %s between start and result)",
+				 !*line ? "no output line" : "wrong instant", rc2 ? "unknown" : o1 != o2 ? "changes" : "the same");
+			snprintf(cas, sizeof(cas), "SDZ %d", k);
+			snprintf(cmd, sizeof(cmd), "echo %s | dadd --from-zone %s %s -f %%s", seq_alpha[i], seq_zones[sdz[k].zi], text);
+			ex_viol(key, (double)llabs(seq_secs[i]), cas, cmd, "%s prints '%s'; %s in that zone is Unix %lld, %s later is %lld", cmd, line, text,
+				(long long)start, seq_alpha[i], (long long)want);
+			bad++;
+		}
+		line = nl ? nl + 1 : line + strlen(line);
+	}
+	return bad;
+}
+
 #endif
